@@ -443,7 +443,7 @@ class CaseTimeout(BaseException):
     """the real code did not come back within the per-case limit"""
 
 
-CASE_SECONDS = int(os.environ.get('PYVC_CASE_SECONDS', '20'))
+CASE_SECONDS = int(os.environ.get('PYVC_CASE_SECONDS', '60'))
 
 
 def run_concrete(unit, inputs=None, gen=None):
